@@ -147,6 +147,14 @@ def _validate_h5ad(
         new_h5ad_path = output_dir / f'{h5ad_name}_VALIDATED_{timestamp}.h5ad'
     else:
         new_h5ad_path = pathlib.Path(valid_h5ad_path)
+        if (new_h5ad_path.resolve().absolute()
+                == original_h5ad_path.resolve().absolute()):
+            # the input file is never modified (and would be
+            # removed below if it turned out to need no change)
+            raise RuntimeError(
+                "valid_h5ad_path points to the file being validated "
+                f"({original_h5ad_path.name}); the validated file must "
+                "be written somewhere else")
 
     write_to_new_path = False
     has_warnings = False
